@@ -213,75 +213,84 @@ def lineInfo (p : Prog) (idx : Nat) : Option (Nat × String) :=
   | none => none
   | some pos => (getErrPos p.nl pos).map fun (line, s, e) => (line, sliceStr p.text s e)
 
-/-- the loop of `CMDDriver::run`; returns (stdout, exited through process::exit, trace, machine, flags) -/
-def loop (p : Prog) : Nat → Nat → Machine → Ctx → List String → String → List Nat → Result
+/-- the prompt shown before an instruction while stepping is active (interpreted mode or trap flag):
+    `none` = abort (no source-map entry), `some (out, stdin, exit?)` otherwise -/
+def prePrompt (p : Prog) (idx : Nat) (m : Machine) (stdin : List String) (out : String) : Option (String × List String × Bool) :=
+  let tf := getFlag m.flag .TRAP
+  if (p.interpreted || tf) && idx + 2 ≤ p.code.size then
+    match lineInfo p idx with
+    | none => none
+    | some (line, text) =>
+      let out := out ++ s!"About to execute line {line} : {text}\n" ++ (if tf then "Trap flag is set\n" else "")
+      let (out, stdin, e) := prompt m stdin out
+      some (out, stdin, e == .exit)
+  else some (out, stdin, false)
+
+abbrev Cont := Nat → Machine → Ctx → List String → String → List Nat → Result
+
+/-- one iteration of the loop after the prompt: execute the instruction at `idx` and dispatch on the
+    interpreter's answer; `k` is the rest of the run -/
+def stepBody (p : Prog) (k : Cont) (idx : Nat) (m : Machine) (ctx : Ctx) (stdin : List String) (out : String) (tr : List Nat) : Result :=
+  let line := p.code[idx]?.getD ""
+  let tr := idx :: tr
+  let done := fun (out : String) (m : Machine) => ({ stdout := out, exit := 0, trace := tr.reverse, final := some m } : Result)
+  let abort := fun (m : Machine) => ({ stdout := out, exit := 101, trace := tr.reverse, final := some m, panic := true } : Result)
+  match (parseLine line).map (exec idx m ctx) with
+  | none => { done (out ++ "Internal Error : Should not have reached here in interpreter parser\n") m with tailUnpredicted := true }
+  | some (.error _) => { done (out ++ "Internal Error : Should not have reached here in interpreter parser\n") m with tailUnpredicted := true }
+  | some (.ok (st, m, ctx)) =>
+    match st with
+    | .HALT => done out m
+    | .PRINT =>
+      match lineInfo p idx with
+      | none => abort m
+      | some (ln, text) =>
+        let out := out ++ s!"Output of line {ln} : {text} :\n"
+        match runPrint m line with
+        | some s => k (idx + 1) m ctx stdin (out ++ s) tr
+        | none => { done (out ++ "Internal Error : Should not have reached here in print parser\n") m with tailUnpredicted := true }
+    | .JMP n => k n m ctx stdin out tr
+    | .NEXT => k (idx + 1) m ctx stdin out tr
+    | .REPEAT => k idx m ctx stdin out tr
+    | .INT n =>
+      let info := lineInfo p idx
+      if n == 0#8 then
+        match info with
+        | none => abort m
+        | some (ln, text) => done (out ++ s!"Attempt to divide by 0 : int 0 at {ln} : {text}\nExiting\n") m
+      else if n == 3#8 then
+        match info with
+        | none => abort m
+        | some (ln, _) =>
+          let (out, stdin, e) := prompt m stdin (out ++ s!"Int 3 at line {ln}\n")
+          if e == .exit then { stdout := out, exit := 0, trace := tr.reverse, final := none }
+          else k (idx + 1) m ctx stdin out tr
+      else if n == 0x10#8 then
+        let ah := m.getByteReg .AH
+        if ah != 0x0A#8 && ah != 0x13#8 then
+          match info with
+          | none => abort m
+          | some (ln, text) => done (out ++ s!"Error at line {ln} : {text}, value of AH = {ah.toNat} is not supported for int 0x10\nExiting\n") m
+        else k (idx + 1) m ctx stdin (out ++ int10 m ah) tr
+      else if n == 0x21#8 then
+        let ah := m.getByteReg .AH
+        if ah != 0x01#8 && ah != 0x02#8 && ah != 0x0A#8 then
+          match info with
+          | none => abort m
+          | some (ln, text) => done (out ++ s!"Error at line {ln} : {text}, value of AH = {ah.toNat} is not supported for int 0x10\nExiting\n") m
+        else
+          let (m, s, stdin) := int21 m ah stdin
+          k (idx + 1) m ctx stdin (out ++ s) tr
+      else done (out ++ s!"Internal Error : Should not have reached here in interrupt parser\nError : int {n.toNat} not supported\n") m
+
+/-- the loop of `CMDDriver::run`: prompt (when stepping is active), then one instruction, then the rest -/
+def loop (p : Prog) : Nat → Cont
   | 0, _, m, _, _, out, tr => { stdout := out, exit := 0, trace := tr.reverse, final := some m, budget := true }
   | fuel+1, idx, m, ctx, stdin, out, tr =>
-    let tf := getFlag m.flag .TRAP
-    -- prompt before the instruction
-    let pre : Option (String × List String × Bool) :=
-      if (p.interpreted || tf) && idx + 2 ≤ p.code.size then
-        match lineInfo p idx with
-        | none => none
-        | some (line, text) =>
-          let out := out ++ s!"About to execute line {line} : {text}\n" ++ (if tf then "Trap flag is set\n" else "")
-          let (out, stdin, e) := prompt m stdin out
-          some (out, stdin, e == .exit)
-      else some (out, stdin, false)
-    match pre with
+    match prePrompt p idx m stdin out with
     | none => { stdout := out, exit := 101, trace := tr.reverse, final := some m, panic := true }
-    | some (out, stdin, true) => { stdout := out, exit := 0, trace := tr.reverse, final := none }
-    | some (out, stdin, false) =>
-      let line := p.code[idx]?.getD ""
-      let tr := idx :: tr
-      let done := fun (out : String) (m : Machine) => ({ stdout := out, exit := 0, trace := tr.reverse, final := some m } : Result)
-      match (parseLine line).map (exec idx m ctx) with
-      | none => { done (out ++ "Internal Error : Should not have reached here in interpreter parser\n") m with tailUnpredicted := true }
-      | some (.error _) => { done (out ++ "Internal Error : Should not have reached here in interpreter parser\n") m with tailUnpredicted := true }
-      | some (.ok (st, m, ctx)) =>
-        match st with
-        | .HALT => done out m
-        | .PRINT =>
-          match lineInfo p idx with
-          | none => { stdout := out, exit := 101, trace := tr.reverse, final := some m, panic := true }
-          | some (ln, text) =>
-            let out := out ++ s!"Output of line {ln} : {text} :\n"
-            match runPrint m line with
-            | some s => loop p fuel (idx + 1) m ctx stdin (out ++ s) tr
-            | none => { done (out ++ "Internal Error : Should not have reached here in print parser\n") m with tailUnpredicted := true }
-        | .JMP n => loop p fuel n m ctx stdin out tr
-        | .NEXT => loop p fuel (idx + 1) m ctx stdin out tr
-        | .REPEAT => loop p fuel idx m ctx stdin out tr
-        | .INT n =>
-          let info := lineInfo p idx
-          if n == 0#8 then
-            match info with
-            | none => { stdout := out, exit := 101, trace := tr.reverse, final := some m, panic := true }
-            | some (ln, text) => done (out ++ s!"Attempt to divide by 0 : int 0 at {ln} : {text}\nExiting\n") m
-          else if n == 3#8 then
-            match info with
-            | none => { stdout := out, exit := 101, trace := tr.reverse, final := some m, panic := true }
-            | some (ln, _) =>
-              let (out, stdin, e) := prompt m stdin (out ++ s!"Int 3 at line {ln}\n")
-              if e == .exit then { stdout := out, exit := 0, trace := tr.reverse, final := none }
-              else loop p fuel (idx + 1) m ctx stdin out tr
-          else if n == 0x10#8 then
-            let ah := m.getByteReg .AH
-            if ah != 0x0A#8 && ah != 0x13#8 then
-              match info with
-              | none => { stdout := out, exit := 101, trace := tr.reverse, final := some m, panic := true }
-              | some (ln, text) => done (out ++ s!"Error at line {ln} : {text}, value of AH = {ah.toNat} is not supported for int 0x10\nExiting\n") m
-            else loop p fuel (idx + 1) m ctx stdin (out ++ int10 m ah) tr
-          else if n == 0x21#8 then
-            let ah := m.getByteReg .AH
-            if ah != 0x01#8 && ah != 0x02#8 && ah != 0x0A#8 then
-              match info with
-              | none => { stdout := out, exit := 101, trace := tr.reverse, final := some m, panic := true }
-              | some (ln, text) => done (out ++ s!"Error at line {ln} : {text}, value of AH = {ah.toNat} is not supported for int 0x10\nExiting\n") m
-            else
-              let (m, s, stdin) := int21 m ah stdin
-              loop p fuel (idx + 1) m ctx stdin (out ++ s) tr
-          else done (out ++ s!"Internal Error : Should not have reached here in interrupt parser\nError : int {n.toNat} not supported\n") m
+    | some (out, _, true) => { stdout := out, exit := 0, trace := tr.reverse, final := none }
+    | some (out, stdin, false) => stepBody p (loop p fuel) idx m ctx stdin out tr
 
 def labelOfP (l : Asm.PLabel) : Label := ⟨if l.type == .DATA then .DATA else .CODE, l.map⟩
 
